@@ -16,6 +16,15 @@ def extras [DecidableEq α] : List α → List α → Option (List α)
     if x = y then extras a b
     else (extras (x :: a) b).map (y :: ·)
 
+/-- like `extras`, each surplus element paired with the element that precedes it in `b` -/
+def extrasP [DecidableEq α] : Option α → List α → List α → Option (List (Option α × α))
+  | _, [], [] => some []
+  | prev, [], y :: b => (extrasP (some y) [] b).map ((prev, y) :: ·)
+  | _, _ :: _, [] => none
+  | prev, x :: a, y :: b =>
+    if x = y then extrasP (some y) a b
+    else (extrasP (some y) (x :: a) b).map ((prev, y) :: ·)
+
 structure StepIn where
   rule : String
   kind : String
